@@ -36,6 +36,7 @@ def build_model(F_):
                  "subtyping::subtype::sub_vec_diff": "diff"}
     m.tag_enum_prefix = "subtyping::subtype::SubTypeTag::"
     m.cmp_fns = {"subtyping::bdd::atom_cmp"}
+    m.hir = F_.hir
     return m
 
 
